@@ -235,7 +235,9 @@ def classify_off(case, res):
     found = []
     gs = case['groups']
     cb = case.get('cb', 0)
-    names = dict(e2=('offset.execute-twice-differs', 'ClipperOffset::Execute called twice on the same object gives different results'),
+    names = dict(ov=('offset.execute-callback-overload-differs',
+                     'Execute(DeltaCallback64, Paths64&) on a fresh ClipperOffset differs from SetDeltaCallback(cb) + Execute(1.0, paths) on a fresh one'),
+                 e2=('offset.execute-twice-differs', 'ClipperOffset::Execute called twice on the same object gives different results'),
                  t=('offset.tree-after-paths-differs', 'Execute(tree) on a used ClipperOffset differs from a fresh object'),
                  e3=('offset.paths-after-tree-differs', 'Execute(paths) after Execute(tree) differs from the first Execute(paths)'),
                  d2=('offset.execute-after-other-delta-differs', 'Execute(delta) after an Execute with another delta differs from the first Execute(delta)'),
@@ -249,9 +251,9 @@ def classify_off(case, res):
                       'fresh object constructed with them (miter limit %g, arc tolerance %g, preserve_collinear %d, reverse_solution %d)'
                       % (case.get('ml', 0), case.get('at', 0), case.get('pc', 0), case.get('rs', 0))))
     bad = [k for k in names if flags.get(k, '1') != '1']
-    for k in [k for k in bad if k in ('so', 'so2')]:      # the option setters: never a matter of callbacks or single points
+    for k in [k for k in bad if k in ('so', 'so2', 'ov')]:      # the option setters / the callback overload: never a matter of single points
         found.append(names[k])
-    bad = [k for k in bad if k not in ('so', 'so2')]
+    bad = [k for k in bad if k not in ('so', 'so2', 'ov')]
     if bad:
         has_point = any(len(strip_dups(p, et in (0, 1))) == 1 for (jt, et, paths) in gs for p in paths)
         round_point = any(jt == 2 and len(strip_dups(p, et in (0, 1))) == 1 for (jt, et, paths) in gs for p in paths)
@@ -451,9 +453,10 @@ def gen_off_cases(ctx, thorough):
             cases.append(dict(tag='groups-opts', ml=ml, at=at, pc=pc, rs=rs, delta=7.0, layout='diag',
                               groups=[gplace(g, 'diag') for g in perm]))
     # (2b) delta callback installed (constant; and one that looks at the normals it is shown)
-    for cbm in (1, 2):
+    # (cb 3-5: callbacks returning 0 at some / the end / all vertices: the vertex itself is emitted there)
+    for cbm in (1, 2, 3, 4, 5):
         for (jt, et) in ((2, 0), (3, 0), (2, 4), (0, 2), (2, 1)):
-            pool = [0, 1, 3, 4, 5] if cbm == 1 else [0, 4, 3]
+            pool = [0, 1, 3, 4, 5] if cbm == 1 else ([0, 4, 3] if cbm == 2 else [0, 1, 3, 4])
             for k in (1, 2, 3):
                 for perm in itertools.permutations(pool, k):
                     cases.append(dict(tag='paths-cb%d' % cbm, ml=2.0, at=0.0, pc=0, rs=0, delta=10.0, layout='diag', cb=cbm,
